@@ -532,7 +532,7 @@ func (h *c13H) doc(body []byte, what string, classes []string, splits []uint, me
 			two = leg2.cls
 		}
 		h.notes[fmt.Sprintf("split_at_%02d", k)]++
-		ok, msg := true, ""
+		ok, msg, key := true, "", "path-dependent"
 		switch {
 		case one.cls == 2 && two == 2:
 			if !reflect.DeepEqual(one.tree, leg2.tree) {
@@ -542,15 +542,20 @@ func (h *c13H) doc(body []byte, what string, classes []string, splits []uint, me
 			}
 		case one.cls == two:
 			h.out.Class("split-agree-" + c13ClsName[two])
-		case one.cls == 0 && two == 2 && c13HasWholeFloat(top):
+		case one.cls == 0 && two == 2 && c13HasWholeFloat(top) &&
+			strings.Contains(fmt.Sprint(one.err), "unexpected type") && strings.Contains(fmt.Sprint(one.err), "float64"):
 			// yaml prints 2.0 as 2, which is read back as an int: a value a step
 			// rejects in memory is accepted after a round trip through the file.
+			// A known finding with its own key; any other disagreement keeps the
+			// general key.
 			h.out.Class("split-whole-float-retyped")
+			ok, key = false, "path-dependent-whole-float"
+			msg = fmt.Sprintf("one run fails on a whole-valued float (%v), split at version %d succeeds", one.err, k)
 		default:
 			ok, msg = false, fmt.Sprintf("one run: %s, split at version %d: %s", c13ClsName[one.cls], k, c13ClsName[two])
 		}
 		if !ok {
-			h.emit(vfApp("C13.CParseErr", "0%Z"), true, nil, false, msg, "path-dependent",
+			h.emit(vfApp("C13.CParseErr", "0%Z"), true, nil, false, msg, key,
 				map[string]any{"what": what, "body": string(body), "split": k})
 		}
 	}
@@ -926,11 +931,11 @@ func TestVerifC13(t *testing.T) {
 		"schema_version: 30\n", "schema_version: 29\nzz: 1\n", "schema_version: ~\n", "schema_version: 28\nschema_version: 28\n",
 		"schema_version: 27\nbase: &b {all_servers: true}\ndns: *b\nfilters: [{url: /x}, {url: ~}, {}]\nfiltering: {}\n",
 		"schema_version: 28\nfiltering: ~\nfilters: [{url: /x}]\n", "schema_version: 28\nfiltering: {}\nfilters: [1]\n",
-		"schema_version: 10\nrlimit_nofile: 2.0\n", "schema_version: 11\ndns: {querylog_interval: 106752}\n",
+		"schema_version: 10\nrlimit_nofile: 2.0\n", "schema_version: 9\nrlimit_nofile: 2.0\n", "schema_version: 9\nrlimit_nofile: 2.5\n", "schema_version: 11\ndns: {querylog_interval: 106752}\n",
 		"schema_version: 22\nbind_host: '::1'\nbind_port: 70000\nweb_session_ttl: 2562048\n", "1: 2\n~: 3\n", "schema_version: 1.0\n",
 		"schema_version: 18446744073709551615\n", "dns: ~\nclients: ~\ndhcp: ~\n", "schema_version: 4\nauth_name: u\nauth_pass: " + strings.Repeat("p", 73) + "\n",
 	} {
-		h.doc([]byte(s), "raw document", []string{"raw"}, []uint{5, 11, 12, 23, 28}, 2)
+		h.doc([]byte(s), "raw document", []string{"raw"}, []uint{5, 10, 11, 12, 23, 28}, 2)
 	}
 
 	// every golden input: one run, every split point for the first, in memory
